@@ -42,7 +42,7 @@ func (c12) Describe() engine.Info {
 	return engine.Info{
 		Rule: "scenario = start counter phase + timed list of DIV/TIMA/TMA/TAC writes (classes: random schedules with gaps 1..6 cycles and occasional long gaps; writes placed by the reference model at overflow-1..overflow+3; enumerated short sequences from edge/wrap phases). " +
 			"Signature = (event kind, reference phase at the event {idle,pending,A,B}, signal level before, signal changed by the write, TAC select); non-trivial = an event that landed with the timer enabled or inside an overflow window." +
-			" Environment dimensions: CPU parked looping/halted/stopped, DebugLCD, and in a third of the scenarios writes to other units (DMA, LCD, sound, joypad, serial) and key events at unused boundaries. Class triple (enumerated, 65,536 scenarios): TIMA=FF, then register writes in three consecutive machine cycles (TAC x TAC x {TMA, TIMA, DIV, TAC}) from each of 64 divider phases and 4 running TAC values.",
+			" Environment dimensions: CPU parked looping/halted/stopped, DebugLCD, and in a third of the scenarios writes to other units (DMA, LCD, sound, joypad, serial) and key events at unused boundaries. Class triple (enumerated, 65,536 scenarios): TIMA=FF, then register writes in three consecutive machine cycles (TAC x TAC x {TMA, TIMA, DIV, TAC}) from each of 64 divider phases and 4 running TAC values. Guest stores to IF (timer bit clear) are placed around overflows and mixed into random schedules.",
 		Assumptions: []string{
 			"a write injected at boundary b is the guest's write in cycle b+1 (no party acts in between); cross-checked by the W1/W2 validity class of C26",
 			"interrupt request accepted at the overflow boundary or at the reload boundary (statement: no later than the reload); a cancelled overflow may or may not request",
